@@ -1,5 +1,6 @@
 import Driver.RW
 import EoVerif.Model.GenExec
+import EoVerif.Spec.Protocol
 /-! Driver commands for the generator model (C01–C03, C15–C19). -/
 namespace Driver
 open EoVerif EoVerif.Gen
@@ -111,6 +112,7 @@ def sanitizeMsg (m : String) : String := String.ofList (m.toList.map (fun c => i
 
 structure GenState where
   out : Option GenOutput := none
+  spec : Option Spec.TSpec := none
 
 def handleGen (gs : GenState) : List String → GenState × String
   | "load" :: ts =>
@@ -118,8 +120,8 @@ def handleGen (gs : GenState) : List String → GenState × String
     | none => (gs, "bad-op")
     | some files =>
       match compile files with
-      | .error m => ({ out := none }, "err " ++ sanitizeMsg m)
-      | .ok o => ({ out := some o }, s!"ok {o.classes.length}" ++ String.join (o.classes.map (fun c => " " ++ c.name)))
+      | .error m => ({ out := none, spec := Spec.elabSpec files }, "err " ++ sanitizeMsg m)
+      | .ok o => ({ out := some o, spec := Spec.elabSpec files }, s!"ok {o.classes.length}" ++ String.join (o.classes.map (fun c => " " ++ c.name)))
   | ["files"] =>
     match gs.out with
     | none => (gs, "no-spec")
@@ -175,6 +177,23 @@ def handleGen (gs : GenState) : List String → GenState × String
       (gs, match res with
         | .ok v => s!"ok {valueStr v} pos {r.pos} chunked {b01 r.chunked}"
         | .error e => s!"err {e} pos {r.pos} chunked {b01 r.chunked}")
+    | none, _, _ => (gs, "no-spec")
+    | _, _, _ => (gs, "bad-op")
+  | "wire" :: cls :: san :: ts =>
+    match gs.spec, parseBool san, pValue ts with
+    | some t, some san, some (v, _) =>
+      (gs, match Spec.wireClass t (t.classes.length + 1) cls v san with
+        | some bs => s!"ok {toHex bs}"
+        | none => "refuse")
+    | none, _, _ => (gs, "no-spec")
+    | _, _, _ => (gs, "bad-op")
+  | ["rspec", cls, chunked, h] =>
+    match gs.spec, parseBool chunked, parseHex h with
+    | some t, some ch, some bs =>
+      (gs, match Spec.readClass t (t.classes.length + 1) cls ⟨bs, 0, ch, 0⟩ with
+        | .ok (r, v) => s!"ok {valueStr v} pos {r.pos} chunked {b01 r.chunked}"
+        | .error .negativeLength => "err ValueError"
+        | .error .diverges => "err Diverges")
     | none, _, _ => (gs, "no-spec")
     | _, _, _ => (gs, "bad-op")
   | _ => (gs, "bad-op")
